@@ -12,7 +12,7 @@ import xml.etree.ElementTree as ET
 
 from common import REPO
 
-KEPT_ATTRS = ("id", "intent", "arg", "data-changed", "data-id-added", "mathvariant", "form", "open", "close",
+KEPT_ATTRS = ("id", "intent", "encoding", "arg", "data-changed", "data-id-added", "mathvariant", "form", "open", "close",
               "separators", "alt", "data-chem-formula-op", "data-previous-space-width", "data-following-space-width",
               "data-empty-in-2D", "data-added", "data-split", "data-function-guess", "width", "notation",
               "data-width", "data-function-likelihood", "data-chem-formula", "data-chem-equation", "data-intent-property")
@@ -61,7 +61,23 @@ def strip_ns(tag):
     return tag.split("}", 1)[1] if "}" in tag else tag
 
 
+TOKEN_TAGS = ("mi", "mn", "mo", "mtext", "ms")
+
+
+def token_text(el):
+    """Character data of a token element in document order; embedded HTML wrappers contribute their text, mglyph its alt."""
+    out = el.text or ""
+    for k in list(el):
+        if isinstance(k.tag, str):
+            out += k.attrib.get("alt", "") if strip_ns(k.tag) == "mglyph" else token_text(k)
+        out += k.tail or ""
+    return out
+
+
 def project(el):
+    if strip_ns(el.tag) in TOKEN_TAGS and len(list(el)) > 0:
+        attrs = {strip_ns(k): v for k, v in el.attrib.items() if strip_ns(k) in KEPT_ATTRS}
+        return {"tag": strip_ns(el.tag), "kids": [], "cp": [ord(c) for c in token_text(el)], "a": attrs}
     kids = [project(k) for k in list(el) if isinstance(k.tag, str)]
     text = (el.text or "")
     for k in list(el):
@@ -88,24 +104,22 @@ def parse(s, expand=True):
     return project(root)
 
 
-def tree_for_tlc(t, with_ids=False):
-    """The record handed to TLC: tag, kids, cp and a small fixed attribute record (all fields always present)."""
+def tree_for_tlc(t):
+    """The record handed to TLC (all fields always present; see spec/Canon.tla)."""
     a = t["a"]
-    rec = {
+    return {
         "tag": t["tag"],
-        "kids": [tree_for_tlc(k, with_ids) for k in t["kids"]],
+        "kids": [tree_for_tlc(k) for k in t["kids"]],
         "cp": t["cp"],
         "intent": 1 if "intent" in a else 0,
         "open": [ord(c) for c in a["open"]] if "open" in a else [-1],
         "close": [ord(c) for c in a["close"]] if "close" in a else [-1],
         "seps": [ord(c) for c in a["separators"]] if "separators" in a else [-1],
         "alt": [ord(c) for c in a.get("alt", "")],
-        "emptyIn2D": 1 if a.get("data-empty-in-2D") == "true" else 0,
+        "presEnc": 1 if a.get("encoding") == "MathML-Presentation" else 0,
+        "id": a.get("id", ""),
+        "idAdded": 1 if a.get("data-id-added") == "true" else 0,
     }
-    if with_ids:
-        rec["id"] = a.get("id", "")
-        rec["idAdded"] = 1 if a.get("data-id-added") == "true" else 0
-    return rec
 
 
 def nodes(t):
